@@ -35,8 +35,8 @@ Proof. exact Refcount.all_released_refuted. Qed.
 Print Assumptions c15_evict_without_release_refuted.
 
 (* ---------------------------------------------------------------------------------------------- *)
-(* REGENERATED FROM THE SOURCE ON EVERY RUN (tools/gen -> Generated.g_code; Decisions.v) *)
-From GK Require Import GExpr Generated Decisions.
+(* REGENERATED FROM THE SOURCE ON EVERY RUN (tools/gen -> Generated.g_code; DecBase.v, Dec*.v) *)
+From GK Require Import GExpr Generated DecBase DecRefs DecSnapshot.
 From Coq Require Import String List.
 Import ListNotations.
 
@@ -60,7 +60,7 @@ Theorem c15_reference_sites_are_source :
   (* a freed node releases its item; an item evicted during a visit is released *)
   In "t.store.ItemDecRef" (call_list "Collection.freeNodeUnlocked") /\
   existsb (has_sub "o.ItemDecRef(t, i)") (call_list "Store.visitNodes") = true.
-Proof. exact Decisions.reference_sites. Qed.
+Proof. exact DecRefs.reference_sites. Qed.
 Print Assumptions c15_reference_sites_are_source.
 
 Theorem c15_snapshot_function_is_source :
@@ -73,5 +73,5 @@ Theorem c15_snapshot_function_is_source :
         SAssign [GCall "[]" [GVar "coll"; GVar "name"]] "="
           [GUn "&" (GOther "Collection{  store:  res,  compare: collOrig.compare,  rootLock: collOrig.rootLock,  root:  collOrig.rootAddRef(), }")]];
      SReturn [GVar "res"]].
-Proof. exact Decisions.snapshot_function. Qed.
+Proof. exact DecSnapshot.snapshot_function. Qed.
 Print Assumptions c15_snapshot_function_is_source.
